@@ -39,10 +39,28 @@ class DA(Agent, D.IDecodable):
         return DA(params["pre"] + str(params["agent_index"]), params["model"])
 
 
+NESTED = {}
+
+
 def hook(params):
     LOG.append(("hook", MOD, params["name"], params.get("model")))
     if params.get("complete") and params.get("model") is not None:
         params["model"].complete()
+    if params.get("swap_env") and params.get("model") is not None:
+        # a hook may give the model another environment through the public Model.set_environment()
+        from ECAgent.Core import Environment
+        params["model"].set_environment(Environment(params["model"], id="SWAPPED"))
+    if params.get("nested") and NESTED.get("decoder") is not None:
+        # a hook may decode another description with the SAME decoder object (e.g. an auxiliary sub-model)
+        dec, data = NESTED["decoder"], NESTED["data"]
+        NESTED["decoder"] = None
+        outer = dec.data
+        dec.data = data
+        saved = list(LOG)
+        NESTED["model"] = dec.decode("inner.json")
+        dec.data = outer
+        del LOG[:]
+        LOG.extend(saved)
 
 
 # a second module with classes and hooks of the SAME names (decoding from separate files in one process)
@@ -85,12 +103,14 @@ class Dec(D.Decoder):
         return self.data
 
 
-def _describe(mod, ns, ng, hooks, nums, prios, wins, completing_hook=None):
+def _describe(mod, ns, ng, hooks, nums, prios, wins, completing_hook=None, special=None):
     """description dict + the event sequence the documented lifecycle prescribes for it"""
     def H(name):
         d = {"func": "hook", "module": mod, "params": {"name": name}}
         if completing_hook == name:
             d["params"]["complete"] = True
+        if special and special[0] == name:
+            d["params"][special[1]] = True
         return d
     data = {"model": {"name": "DM", "module": mod, "params": {}}, "systems": [], "agents": []}
     exp = []
@@ -162,9 +182,40 @@ def lifecycle(hm0: bool, hm1: bool, hs00: bool, hs01: bool, hs10: bool, hs11: bo
     hooks = {"pre_model": hm0, "post_model": hm1, "pre_sys": [hs00, hs10], "post_sys": [hs01, hs11],
              "pre_grp": [ha00, ha10], "post_grp": [ha01, ha11]}
     wins = [(st0, en0, 2), (st1, en1, 3)]
-    data, exp = _describe(mod, ns, ng, hooks, [n0, n1], [p0, p1], wins, hx.P.get('completing'))
+    special = hx.P.get('special')
+    if special:
+        for key, idx in (("pre_sys", 0), ("pre_grp", 0)):
+            pass
+        # the hook that carries the special action is always present
+        nm = special[0]
+        if nm == "pre_g0":
+            hooks["pre_grp"][0] = True
+        elif nm == "post_s0":
+            hooks["post_sys"][0] = True
+        elif nm == "pre_s0":
+            hooks["pre_sys"][0] = True
+    data, exp = _describe(mod, ns, ng, hooks, [n0, n1], [p0, p1], wins, hx.P.get('completing'), special)
     dec = Dec(data)
+    if special and special[1] == "nested":
+        inner_hooks = {"pre_model": False, "post_model": False, "pre_sys": [False, False], "post_sys": [False, False],
+                       "pre_grp": [False, False], "post_grp": [False, False]}
+        NESTED["data"], _ = _describe(mod, 1, 1, inner_hooks, [1, 0], [0, 0], [(0, 1, 1), (0, 1, 1)])
+        NESTED["data"]["systems"][0]["params"]["id"] = "inner_sys"
+        NESTED["data"]["agents"][0]["params"]["pre"] = "inner_"
+        NESTED["decoder"] = dec
+        NESTED["model"] = None
     model = dec.decode("file.json")
+    if special and special[1] == "nested":
+        hx.reach('nested')
+        inner = NESTED["model"]
+        if inner is None or inner is model:
+            return hx.end(hx.fail("decode() returned the model of a nested decode instead of its own"))
+        if sorted(inner.systems.systems) != ["inner_sys"] or [a.id for a in inner.environment] != ["inner_0"]:
+            return hx.end(hx.fail("the nested decode received systems/agents of the outer description",
+                                  systems=sorted(inner.systems.systems), agents=[a.id for a in inner.environment]))
+        dec.opened = [f for f in dec.opened if f != "inner.json"]
+    if special and special[1] == "swap_env":
+        hx.reach('swapped')
     if dec.opened != ["file.json"]:
         return hx.end(hx.fail("open_file calls", got=dec.opened))
     if _check_log(LOG, exp, model, mod) is not True:
@@ -255,16 +306,23 @@ def obligations(tier):
     parts += [{"s": 1, "g": 1, "G": 1, "mod": "vf_c18_alt"}]
     # a hook completes the model during decoding: later hooks must still receive the model
     parts += [{"s": 2, "g": 1, "G": 1, "completing": "pre_s0", "hm": [False, True]}, {"s": 1, "g": 1, "G": 1, "completing": "post_s0"}]
+    # a hook replaces the model's environment / decodes another description with the same decoder object
+    parts += [{"s": 1, "g": 2, "G": 1, "special": ["pre_g0", "swap_env"], "hm": [False, False]},
+              {"s": 1, "g": 1, "G": 2, "special": ["post_s0", "swap_env"], "hm": [True, False]},
+              {"s": 2, "g": 1, "G": 1, "special": ["pre_s0", "nested"], "hm": [False, True]},
+              {"s": 1, "g": 1, "G": 2, "special": ["pre_g0", "nested"], "hm": [False, False]}]
 
     def lab(p):
         out = []
+        if p.get("special"):
+            return ("nested",) if p["special"][1] == "nested" else ("swapped",)
         if p["s"] + p["g"] >= 2:
             out.append("rich")
         if p["g"] > 0:
             out.append("empty_group")
         return tuple(out)
     return [
-        X("lifecycle", lifecycle, parts=parts, labels=("rich", "empty_group"), labels_for=lab, timeout=1200, encoded=enc),
+        X("lifecycle", lifecycle, parts=parts, labels=("rich", "empty_group", "nested", "swapped"), labels_for=lab, timeout=1200, encoded=enc),
         X("repeat", repeat, parts=[{"seq": [MOD, MOD]}, {"seq": [MOD, "vf_c18_alt"]}, {"seq": ["vf_c18_alt", MOD, "vf_c18_alt"]}],
           labels=("done",), timeout=600, encoded=enc),
     ]
